@@ -169,6 +169,12 @@ func genC10(r *Rand, tier string, ord int) *Trial {
 		lay = wideLayout(r)
 	}
 	t := &Trial{Kind: kind, Case: Case{Cmd: "updownlist", Files: map[string]string{"ref": ">ref\n" + ref + "\n", "query": q.FASTA(lay)}}, Params: map[string]string{}}
+	if !wide && !many && r.P(0.1) {
+		// a program that lists several alignments in turn: an earlier call with another (wider) reference
+		wr := genRefSeq(r, len(ref)+r.Range(0, 9))
+		wq := genAln(r, wr, alnSpec{W: len(wr), N: r.Range(1, 4), Prof: profACGT, SNP: 0.2, Prefix: "w"})
+		t.Case.Warm = &Case{Cmd: "updownlist", Files: map[string]string{"ref": ">other\n" + wr + "\n", "query": wq.FASTA(genLayout(r))}}
+	}
 	t.Runs = genRunCfgs(r, 3)
 	if wide {
 		wideRuns(t.Runs)
